@@ -171,6 +171,11 @@ func (ex *Exec) returnSite(fr *Frame) string {
 }
 
 func (ex *Exec) doReturn(st *State, fr *Frame, res Value) {
+	if ex.subCollect != nil && len(st.Frames) == 1 {
+		*ex.subCollect = append(*ex.subCollect, res)
+		st.Frames = nil
+		return
+	}
 	ex.checkDisciplines(st, fr)
 	if len(st.Frames) == 1 {
 		if fr.Idx > 0 && fr.Idx <= len(fr.Block.Instrs) {
@@ -729,3 +734,35 @@ func markLib(v Value) {
 }
 
 var traceCalls = os.Getenv("GOCV_TRACE") == "3"
+
+// evalClosure runs a function value on the given arguments in a scratch copy of the state and returns the
+// results of all its paths (used by models of higher-order library functions to inspect a callback).
+func (ex *Exec) evalClosure(st *State, fv *FuncV, args []Value) ([]Value, bool) {
+	if fv == nil || fv.Fn == nil || len(fv.Fn.Blocks) == 0 {
+		return nil, false
+	}
+	sub := st.Clone()
+	fr := &Frame{Fn: fv.Fn, Block: fv.Fn.Blocks[0], Locals: map[ssa.Value]Value{}, Bind: fv.Bind, LoopHit: map[*ssa.BasicBlock]int{}, Cut: map[*ssa.BasicBlock]bool{}, Args: args}
+	for i, p := range fv.Fn.Params {
+		if i < len(args) {
+			fr.Locals[p] = args[i]
+		}
+	}
+	sub.Frames = []*Frame{fr}
+	saveWork, saveObls, savePaths := ex.work, len(ex.Obls), ex.paths
+	var results []Value
+	ex.subCollect = &results
+	ex.work = []*State{sub}
+	for len(ex.work) > 0 && ex.paths-savePaths < 200 {
+		s := ex.work[len(ex.work)-1]
+		ex.work = ex.work[:len(ex.work)-1]
+		ex.paths++
+		ex.runPath(s)
+	}
+	complete := len(ex.work) == 0
+	ex.subCollect = nil
+	ex.work = saveWork
+	ex.Obls = ex.Obls[:saveObls]
+	ex.paths = savePaths
+	return results, complete
+}
